@@ -23,7 +23,7 @@ RULE = (
 ASSUMPTIONS = ["oracle: vf/oracle/pins.py (Fractions); known finding K3 recognised only by buggy-model replay of the word matcher"]
 REQUIRED = ["calls.PinWords.pinword_to_perm", "calls.PinWordUtil.call", "calls.PinWords.sp_to_m", "calls.PinWords.m_to_sp", "calls.PinWords.quadrant",
             "calls.PinWords.factor_pinword", "calls.PinWords.pinword_occurrences_sp", "calls.PinWords.pinword_contains", "tables.checked",
-            "containment.decided", "containment.positive", "hook.numeral_pins", "hook.direction_pins", "aliasing.factor_list_mutated", "faults.injected"]
+            "containment.decided", "containment.positive", "hook.numeral_pins", "hook.direction_pins", "aliasing.factor_list_mutated", "faults.injected", "long.factor_searches", "long.subpermutations_searched"]
 MIN_NONTRIVIAL = 500
 CTX = None
 MON = None
@@ -275,6 +275,67 @@ def chk_containment(ctx, w, sigma):
             report("contain", [w, list(sig)], f"pinword_occurrences / pinword_contains disagree for {u!r} in {w!r}")
 
 
+def rand_word(rng, n, p_numeral=0.15):
+    """a random pin word of length n; staircases (period-two direction runs) are favoured half of the time"""
+    w = rng.choice(P.QUADS)
+    stair = rng.random() < 0.5
+    a, b = rng.choice(P.VERT), rng.choice(P.HORI)
+    pair = rng.choice([a + b, b + a])
+    while len(w) < n:
+        prev = w[-1]
+        if rng.random() < p_numeral:
+            w += rng.choice(P.QUADS)
+            continue
+        if prev in P.QUADS:
+            allowed = P.DIRS
+        else:
+            allowed = P.HORI if prev in P.VERT else P.VERT
+        if stair and rng.random() < 0.85:
+            cand = [c for c in pair if c in allowed]
+            w += cand[0] if cand else rng.choice(allowed)
+        else:
+            w += rng.choice(allowed)
+    return w
+
+
+def chk_long(ctx, w, seed):
+    """long words (beyond the exhaustive bound): strict factors read off the word itself (and near misses of them) are
+    searched for, and sub-permutations of perm(w) must be found through their pin words"""
+    import random
+    rng = random.Random(seed)
+    chk_word(ctx, w)
+    n = len(w)
+    for _ in range(6):
+        i = rng.randrange(n)
+        k = rng.randint(1, min(6, n - i))
+        tail = w[i + 1: i + k]
+        if any(c in P.QUADS for c in tail):
+            tail = tail[: min(j for j, c in enumerate(tail) if c in P.QUADS)]
+        u = P.quadrant_geo(w, i) + tail
+        cands = [u]
+        if len(u) >= 2:
+            j = rng.randrange(1, len(u))
+            flip = {"U": "D", "D": "U", "L": "R", "R": "L"}[u[j]]
+            cands.append(u[:j] + flip + u[j + 1:])
+            cands.append(u[:-1])
+        for c in cands:
+            for start in (0, rng.randrange(n)):
+                list(PinWords.pinword_occurrences_sp(w, c, start))  # judged by the generator monitor
+            got = PinWords.pinword_contains_sp(w, c)
+            ctx.ev()
+            if got is not bool(P.occ_sp(w, c, 0)):
+                report("long", [w, seed], f"pinword_contains_sp({w!r}, {c!r}) = {got}, occurrences by definition: {P.occ_sp(w, c, 0)}")
+        ctx.count("long.factor_searches")
+    big = operm(w)
+    for k in (3, 4, 5, 5):
+        if k > len(big):
+            continue
+        idx = sorted(rng.sample(range(len(big)), k))
+        chk_containment(ctx, w, list(C.std([big[i] for i in idx])))
+        ctx.count("long.subpermutations_searched")
+    chk_containment(ctx, w, rng.sample(range(4), 4))
+
+
 def chk_table_fault(ctx, n, k):
     """error path: the FIRST request of a table for a length is aborted at a failpoint; the tables must be right afterwards"""
     for fn in (PinWords.perm_to_pinword_mapping, PinWords.pinword_to_perm_mapping, PinWords.perm_to_strict_pinword_mapping):
@@ -283,7 +344,7 @@ def chk_table_fault(ctx, n, k):
     chk_tables(ctx, n)
 
 
-CHECKS = {"tablefault": chk_table_fault, "word": chk_word, "strict": chk_strict, "mword": chk_mword, "tables": chk_tables, "contain": chk_containment}
+CHECKS = {"long": chk_long, "tablefault": chk_table_fault, "word": chk_word, "strict": chk_strict, "mword": chk_mword, "tables": chk_tables, "contain": chk_containment}
 
 
 def plan(tier, seed):
@@ -293,11 +354,21 @@ def plan(tier, seed):
     parts = 16
     specs += [{"name": f"contain-{i}", "kind": "contain", "wmax": wmax, "part": i, "parts": parts,
                "sample5": (400 if tier == "quick" else 5000) // parts, "sample6": (0 if tier == "quick" else 2000) // parts} for i in range(parts)]
+    specs += [{"name": f"long-{i}", "kind": "long", "count": 40 if tier == "quick" else 400} for i in range(4 if tier == "quick" else 12)]
     return specs
 
 
 def run(ctx, spec):
     rng = ctx.rng
+    if spec["kind"] == "long":
+        for _ in range(spec["count"]):
+            w = rand_word(rng, rng.randint(6, 11), rng.choice([0.0, 0.0, 0.1, 0.25]))
+            chk_long(ctx, w, rng.randrange(10 ** 6))
+        for w in ("1URURUL", "1URURURD", "3DLDLDLU", "2ULULULULD", "1URURUL4RURURD", "41URURUL"):
+            chk_long(ctx, w, rng.randrange(10 ** 6))
+        ctx.sample({"long_word": w, "perm_of_word": list(operm(w))})
+        ctx.note("long words: lengths 6..14, staircases favoured; factors read off the word, sub-permutations of perm(w) of length 3..5")
+        return
     if spec["kind"] == "tablefault":
         # a fresh process per failpoint: the tables are memoised for the life of the process
         for n in (2, 3, 4, 5):
